@@ -36,7 +36,7 @@ RULE = ('generated schemas (rule references incl. the same rule twice in one nam
 
 
 def cases(rng, tier):
-    n = 260 if tier == 'quick' else 2500
+    n = 260 if tier == 'quick' else 8000
     k = 22 if tier == 'quick' else 40
     fns = L.user_fns(L.FN_NAMES)
     for i in range(n):
